@@ -861,6 +861,8 @@ def main(tier=None, replay=None):
         "exact trajectory (accuracy of the interpolants) is not decided; |g(t_hit,y_hit)| and |t_hit - t*| are contracts",
         "non-terminal events (terminal=False) are not part of the property",
     ]
+    import c11back
+    c11back.run(ck)      # backward time and time-dependent events through the public integrators (Contracts.tla)
     return ck.finish()
 
 
